@@ -1961,6 +1961,81 @@ theorem modern_files_end_to_end : ∀ v ∈ acadVersions, v.2 = true → ∀ cp 
   obtain ⟨b, h1, _, h3, h4⟩ := utf8_identity handlerFmt s hs hn
   exact ⟨b, h1, h3, h4⟩
 
+/-! ### the writer's side: header and bytes of every saved document agree (histories over loaded documents) -/
+
+/-- the decision logic of `Drawing._update_metadata` / `output_encoding` / `save` / `write` in the current source has
+    the shape `writeDoc` models (extracted from the AST on every run): the $DWGCODEPAGE assignment is unconditional -/
+theorem source_writer_as_modelled : writerRules = writerAsModelled := by decide
+
+/-- for EVERY document state - new or loaded, whatever $DWGCODEPAGE its header held before, any known DXF version, any
+    supported code page in `doc.encoding` - the $ACADVER / $DWGCODEPAGE written into the file determine, through the
+    readers' detection, exactly the encoding the bytes were written with -/
+theorem written_header_matches_bytes (s : DocState) (u : Bool) (hv : (s.version, u) ∈ acadVersions) :
+    ∀ p ∈ codepageToEncoding, s.encoding = p.2 →
+    detectEncoding codepageToEncoding (writeDoc encodingToCodepage s).acadver (writeDoc encodingToCodepage s).codepage
+        = (writeDoc encodingToCodepage s).bytesEncoding
+    ∧ detectRecover codepageToEncoding (writeDoc encodingToCodepage s).acadver (writeDoc encodingToCodepage s).codepage
+        = (writeDoc encodingToCodepage s).bytesEncoding := by
+  intro p hp he
+  have hname := (names_bijective.1 p hp).2
+  have hdet := detect_encoding_known_versions ansiPrefix (s.version, u) hv p hp
+  have hall : acadVersions.all (fun v => strLt v.1 ac1021 == !v.2 && !v.1.isEmpty) = true := by decide +kernel
+  have hver : strLt s.version ac1021 = !u := by
+    have := List.all_eq_true.mp hall (s.version, u) hv
+    simp only [Bool.and_eq_true, beq_iff_eq] at this
+    exact this.1
+  simp only [writeDoc, he, hname, hver]
+  cases u <;> simpa using hdet
+
+/-- loading what was written restores version and code page (so a second save starts from the same state) -/
+theorem load_after_write (s : DocState) : ∀ p ∈ codepageToEncoding, s.encoding = p.2 →
+    (loadDoc codepageToEncoding (writeDoc encodingToCodepage s)).encoding = s.encoding
+    ∧ (loadDoc codepageToEncoding (writeDoc encodingToCodepage s)).version = s.version
+    ∧ (loadDoc codepageToEncoding (writeDoc encodingToCodepage s)).loaded = true := by
+  intro p hp he
+  have h := names_roundtrip.1 p hp
+  simp only [loadDoc, writeDoc, he, h, and_self]
+
+/-- the history of seed C09-m4: save, LOAD, change the code page and the version, save again: header and bytes of the
+    second file agree (for the m4 change they do not: the header keeps the first code page) -/
+theorem history_header_matches_bytes (s : DocState) (e2 v2 : Str) (u : Bool) (hv : (v2, u) ∈ acadVersions) :
+    ∀ p ∈ codepageToEncoding, e2 = p.2 →
+    let s2 : DocState := { loadDoc codepageToEncoding (writeDoc encodingToCodepage s) with encoding := e2, version := v2 }
+    detectEncoding codepageToEncoding (writeDoc encodingToCodepage s2).acadver (writeDoc encodingToCodepage s2).codepage
+      = (writeDoc encodingToCodepage s2).bytesEncoding := by
+  intro p hp he
+  exact (written_header_matches_bytes _ u hv p hp he).1
+
+/-! ### `BinaryTagWriter.write_str` -/
+
+private theorem take2_pairs (tags : List (Str × Str)) :
+    take2 (tags.flatMap (fun t => [t.1, t.2]) ++ [[]]) = tags := by
+  induction tags with
+  | nil => simp [take2]
+  | cons t r ih => simp [List.flatMap_cons, take2, ih]
+
+/-- a preformatted string of tags whose code lines and values contain no LF is taken apart into exactly these tags -
+    whatever else the values contain (U+2028, U+2029, U+0085, VT, FF, FS..RS: the characters `str.splitlines()` would
+    split at; seed C09-m6) -/
+theorem write_str_tags (tags : List (Str × Str)) (h : ∀ t ∈ tags, 10 ∉ t.1 ∧ 10 ∉ t.2) :
+    writeStrTags (tagLines tags) = tags := by
+  have e : tagLines tags = joinSep 10 (tags.flatMap (fun t => [t.1, t.2])) := by
+    induction tags with
+    | nil => rfl
+    | cons t r ih =>
+      have := ih (fun x hx => h x (by simp [hx]))
+      simp only [tagLines, joinSep, List.flatMap_cons, List.flatMap_append, List.flatMap_nil, List.append_nil,
+        List.append_assoc] at this ⊢
+      rw [this]
+  unfold writeStrTags
+  rw [e, splitOn_joinSep 10 _ (by
+    intro v hv
+    simp only [List.mem_flatMap, List.mem_cons, List.not_mem_nil, or_false] at hv
+    obtain ⟨t, ht, rfl | rfl⟩ := hv
+    · exact (h t ht).1
+    · exact (h t ht).2)]
+  exact take2_pairs tags
+
 /-! ### MIF escapes `\M+kXXXX` (read by the recover loader only) -/
 
 /-- `MIF_CODE_PAGE` as the source has it, resolved through `codecs.lookup`: 1 cp932, 2 cp950, 3 cp949, 5 cp936 = gbk;
@@ -2365,6 +2440,11 @@ example : ([65, 67, 49, 48, 49, 53], false) ∈ acadVersions ∧ ([65, 67, 49, 4
 #guard lfToCrlf [65, 10] == [65, 13, 10]
 #guard crlfToLf [13, 13, 10, 13] == [13, 10, 13]
 example : hasMif [65, 92, 77, 43, 49, 52, 49] = false ∧ mifPrefix.isPrefixOf [65, 92, 77, 43, 49, 52, 49] = false := by decide
+-- writer: a document loaded from a cp1252 file, switched to cp1251 and saved as R2000 says ANSI_1251 and is cp1251
+#guard writeDoc encodingToCodepage ⟨true, [65, 67, 49, 48, 49, 53], [99, 112, 49, 50, 53, 49], [65, 78, 83, 73, 95, 49, 50, 53, 50]⟩
+  == ⟨[65, 67, 49, 48, 49, 53], [65, 78, 83, 73, 95, 49, 50, 53, 49], [99, 112, 49, 50, 53, 49]⟩
+-- write_str: "  9\n$MENU\n  1\na<U+2028>b\n" is one header variable name and one value
+#guard writeStrTags [32, 57, 10, 36, 77, 10, 49, 10, 97, 0x2028, 98, 10] == [([32, 57], [36, 77]), ([49], [97, 0x2028, 98])]
 -- the name tables are not empty
 example : toencoding codepageToEncoding [65, 78, 83, 73, 95, 57, 51, 54] = [103, 98, 107] := by decide
 example : tocodepage encodingToCodepage [103, 98, 107] = [65, 78, 83, 73, 95, 57, 51, 54] := by decide
